@@ -686,3 +686,70 @@ Proof.
   split; [|split; reflexivity].
   do 3 eexists. split; vm_compute; reflexivity.
 Qed.
+
+(* ------------------------------------------------------------------ *)
+(* on command lines of the documented form both getopt flavours agree  *)
+
+Section PosixVsSpec.
+  Variable C : Type.
+  Variable apply : N -> option str -> C -> option C.
+  Variable opts : str.
+  Variable kindof : N -> kind.
+  Hypothesis H_k : forall c, opt_kind opts c = kindof c.
+  Variable prog : str.
+
+  Lemma scan_cluster_ext : forall cs next cfg,
+    scan_cluster apply (opt_kind opts) prog cs next cfg = scan_cluster apply kindof prog cs next cfg.
+  Proof.
+    induction cs as [|c cs IH]; intros next cfg; cbn [scan_cluster]; [reflexivity|].
+    rewrite H_k. destruct (kindof c); [reflexivity| |reflexivity].
+    destruct (apply c None cfg); [apply IH|reflexivity].
+  Qed.
+
+  Lemma posix_plain_tail : forall rest done nonopts cfg,
+    forallb (fun w => negb (is_option_word w)) rest = true ->
+    posix_scan apply opts prog rest done nonopts cfg = PArgs cfg (prog :: done ++ nonopts ++ rest) (S (length done)).
+  Proof.
+    induction rest as [|a rest IH]; intros done nonopts cfg H; cbn [posix_scan].
+    - rewrite app_nil_r. reflexivity.
+    - cbn [forallb] in H. apply andb_true_iff in H. destruct H as [Ha Hr].
+      apply negb_true_iff in Ha.
+      assert (E : str_eqb a s_dashdash = false).
+      { destruct (str_eqb a s_dashdash) eqn:E; [|reflexivity]. apply str_eqb_eq in E. subst a. discriminate. }
+      rewrite E, Ha. rewrite IH by exact Hr. rewrite <- app_assoc. reflexivity.
+  Qed.
+
+  Lemma posix_equals_spec : forall args done full cfg,
+    full = prog :: done ++ args ->
+    options_first apply kindof prog args cfg = true ->
+    posix_scan apply opts prog args done [] cfg = spec_args apply kindof prog full args (S (length done)) cfg.
+  Proof.
+    fix IH 1. intros args done full cfg Hfull Hof.
+    destruct args as [|a rest]; cbn [posix_scan spec_args options_first] in *.
+    - rewrite Hfull. reflexivity.
+    - destruct (str_eqb a s_dashdash); [discriminate|].
+      destruct (is_option_word a) eqn:Ow.
+      + rewrite scan_cluster_ext.
+        pose proof (scan_cluster_props _ apply kindof prog (tl a) (hd_error rest) cfg) as P.
+        destruct (scan_cluster apply kindof prog (tl a) (hd_error rest) cfg) as [ms|cfg' [|]].
+        * reflexivity.
+        * destruct rest as [|v rest']; [cbn in P; congruence|].
+          replace (S (S (S (length done)))) with (S (length (done ++ [a; v]))) by (rewrite app_length; cbn; lia).
+          apply IH; [|exact Hof].
+          rewrite Hfull, <- app_assoc. reflexivity.
+        * replace (S (S (length done))) with (S (length (done ++ [a]))) by (rewrite app_length; cbn; lia).
+          apply IH; [|exact Hof].
+          rewrite Hfull, <- app_assoc. reflexivity.
+      + rewrite posix_plain_tail by exact Hof. rewrite Hfull. reflexivity.
+  Qed.
+End PosixVsSpec.
+
+Theorem posix_equals_att_on_documented_form : forall t argv,
+  argv_ok argv -> documented_form t argv = true -> tool_parse t Posix argv = tool_parse t Att argv.
+Proof.
+  intros t argv Hok Hdoc. rewrite tool_parse_att_spec by exact Hok.
+  destruct argv as [|p args]; [destruct t; reflexivity|].
+  destruct t; unfold tool_parse, tool_spec_parse, run_getopt, spec_parse, documented_form in *.
+  - rewrite (posix_equals_spec _ w2x_apply w2x_optstring kind_w2x opt_kind_w2x p args [] (p :: args)); auto.
+  - rewrite (posix_equals_spec _ x2w_apply x2w_optstring kind_x2w opt_kind_x2w p args [] (p :: args)); auto.
+Qed.
